@@ -26,8 +26,35 @@ theorem real_of_binary {it : Item} (h : isBinaryOp it.typ = true) : real it = 1 
 theorem real_of_value {it : Item} (h : isValue it.typ = true) : real it = 1 := by
   unfold real; rw [if_neg]; intro e; rw [e] at h; revert h; decide
 
+theorem binOpOf_isSome {t : ItemType} (h : isBinaryOp t = true) : binOpOf t ≠ none := by
+  revert h; cases t <;> decide
+
+theorem unary_cases {t : ItemType} (h : isUnaryOp t = true) : t = .tNot ∨ t = .tNegate := by
+  revert h; cases t <;> decide
+
+theorem val_ne1 {AP : Prop} {it : Item} (h : AP ∨ WFItem it)
+    (ht : it.typ = .tDollarIdent ∨ it.typ = .tDotIdent ∨ it.typ = .tDotIndex) : it.val = [] → AP := by
+  intro he
+  rcases h with h | h
+  · exact h
+  · exact absurd he (h.1 ht)
+
+theorem val_ne2a {AP : Prop} {it : Item} (h : AP ∨ WFItem it)
+    (ht : it.typ = .tQuestionDotIdent ∨ it.typ = .tQuestionDotIndex) : it.val = [] → AP := by
+  intro he
+  rcases h with h | h
+  · exact h
+  · have := h.2 ht; rw [he] at this; simp at this
+
+theorem val_ne2b {AP : Prop} {it : Item} {b : UInt8} {r : Bytes} (h : AP ∨ WFItem it)
+    (ht : it.typ = .tQuestionDotIdent ∨ it.typ = .tQuestionDotIndex) (hv : it.val = b :: r) : r = [] → AP := by
+  intro he
+  rcases h with h | h
+  · exact h
+  · have := h.2 ht; rw [hv, he] at this; simp at this
+
 section
-variable (pf : Bytes → Option UInt64) (S : Item → Prop)
+variable (pf : Bytes → Option UInt64) (AP : Prop) (S : Item → Prop)
 
 /-- post-condition shared by the expression functions: invariant kept, no real token
     "un-consumed"; `d` = real tokens consumed at least -/
@@ -36,25 +63,25 @@ def EPost (st : PState) (d : Nat) {α : Type} : α → PState → Prop :=
 
 /-- the specifications of all expression functions at one fuel level -/
 structure ExprSpecs (fuel : Nat) : Prop where
-  parseExpr : ∀ prec st, Inv S st → 8 * mu st + 10 ≤ fuel → PSafe S (parseExpr pf fuel prec) st (EPost S st 1)
-  exprLoop : ∀ prec n st, Inv S st → 8 * mu st + 17 ≤ fuel → PSafe S (exprLoop pf fuel prec n) st (EPost S st 0)
-  firstTerm : ∀ st, Inv S st → 8 * mu st + 9 ≤ fuel → PSafe S (parseExprFirstTerm pf fuel) st (EPost S st 1)
-  newValueNode : ∀ tok st, S tok → Inv S st → 8 * mu st + 16 ≤ fuel → PSafe S (newValueNode pf fuel tok) st (EPost S st 0)
-  parseDataRef : ∀ st, Inv S st → 8 * mu st + 15 ≤ fuel → PSafe S (parseDataRef pf fuel) st (EPost S st 0)
-  parseListOrMap : ∀ tok st, S tok → Inv S st → 8 * mu st + 15 ≤ fuel → PSafe S (parseListOrMap pf fuel tok) st (EPost S st 0)
-  parseListItems : ∀ st, Inv S st → 8 * mu st + 12 ≤ fuel → PSafe S (parseListItems pf fuel) st (EPost S st 0)
-  parseMapItems : ∀ k m st, Inv S st → 8 * mu st + 12 ≤ fuel → PSafe S (parseMapItems pf fuel k m) st (EPost S st 0)
-  parseTernary : ∀ c st, Inv S st → 8 * mu st + 12 ≤ fuel → PSafe S (parseTernary pf fuel c) st (EPost S st 0)
+  parseExpr : ∀ prec st, Inv S st → 8 * mu st + 10 ≤ fuel → PSafe AP S (parseExpr pf fuel prec) st (EPost S st 1)
+  exprLoop : ∀ prec n st, Inv S st → 8 * mu st + 17 ≤ fuel → PSafe AP S (exprLoop pf fuel prec n) st (EPost S st 0)
+  firstTerm : ∀ st, Inv S st → 8 * mu st + 9 ≤ fuel → PSafe AP S (parseExprFirstTerm pf fuel) st (EPost S st 1)
+  newValueNode : ∀ tok st, S tok → isValue tok.typ = true → Inv S st → 8 * mu st + 16 ≤ fuel → PSafe AP S (newValueNode pf fuel tok) st (EPost S st 0)
+  parseDataRef : ∀ st, Inv S st → 8 * mu st + 15 ≤ fuel → PSafe AP S (parseDataRef pf fuel) st (EPost S st 0)
+  parseListOrMap : ∀ tok st, S tok → Inv S st → 8 * mu st + 15 ≤ fuel → PSafe AP S (parseListOrMap pf fuel tok) st (EPost S st 0)
+  parseListItems : ∀ st, Inv S st → 8 * mu st + 12 ≤ fuel → PSafe AP S (parseListItems pf fuel) st (EPost S st 0)
+  parseMapItems : ∀ k m st, Inv S st → 8 * mu st + 12 ≤ fuel → PSafe AP S (parseMapItems pf fuel k m) st (EPost S st 0)
+  parseTernary : ∀ c st, Inv S st → 8 * mu st + 12 ≤ fuel → PSafe AP S (parseTernary pf fuel c) st (EPost S st 0)
   newGlobalNode : ∀ p n nxt st, S nxt → Inv S st → st.peekCount ≤ 1 → top st = nxt → 8 * (mu st + real nxt) + 8 ≤ fuel →
-    PSafe S (newGlobalNode pf fuel p n nxt) st (fun _ st' => Inv S st' ∧ mu st' ≤ mu st + real nxt)
-  newFunctionNode : ∀ tok st, Inv S st → 8 * mu st + 13 ≤ fuel → PSafe S (newFunctionNode pf fuel tok) st (EPost S st 0)
-  parseFuncArgs : ∀ st, Inv S st → 8 * mu st + 12 ≤ fuel → PSafe S (parseFuncArgs pf fuel) st (EPost S st 0)
+    PSafe AP S (newGlobalNode pf fuel p n nxt) st (fun _ st' => Inv S st' ∧ mu st' ≤ mu st + real nxt)
+  newFunctionNode : ∀ tok st, Inv S st → 8 * mu st + 13 ≤ fuel → PSafe AP S (newFunctionNode pf fuel tok) st (EPost S st 0)
+  parseFuncArgs : ∀ st, Inv S st → 8 * mu st + 12 ≤ fuel → PSafe AP S (parseFuncArgs pf fuel) st (EPost S st 0)
 
-variable (hz : S Item.zero)
-include hz
+variable (hz : S Item.zero) (hwf : ∀ it, S it → AP ∨ WFItem it)
+include hz hwf
 
-theorem parseExpr_ok {fuel : Nat} (ih : ExprSpecs pf S fuel) (prec : Nat) (st : PState) (hi : Inv S st)
-    (hf : 8 * mu st + 10 ≤ fuel + 1) : PSafe S (Parser.parseExpr pf (fuel + 1) prec) st (EPost S st 1) := by
+theorem parseExpr_ok {fuel : Nat} (ih : ExprSpecs pf AP S fuel) (prec : Nat) (st : PState) (hi : Inv S st)
+    (hf : 8 * mu st + 10 ≤ fuel + 1) : PSafe AP S (Parser.parseExpr pf (fuel + 1) prec) st (EPost S st 1) := by
   unfold Parser.parseExpr
   apply PSafe.bind
   apply (ih.firstTerm st hi (by omega)).mono
@@ -63,8 +90,8 @@ theorem parseExpr_ok {fuel : Nat} (ih : ExprSpecs pf S fuel) (prec : Nat) (st : 
   intro e st2 ⟨hi2, hm2⟩
   exact ⟨hi2, by omega⟩
 
-theorem exprLoop_ok {fuel : Nat} (ih : ExprSpecs pf S fuel) (prec : Nat) (n : Expr) (st : PState) (hi : Inv S st)
-    (hf : 8 * mu st + 17 ≤ fuel + 1) : PSafe S (Parser.exprLoop pf (fuel + 1) prec n) st (EPost S st 0) := by
+theorem exprLoop_ok {fuel : Nat} (ih : ExprSpecs pf AP S fuel) (prec : Nat) (n : Expr) (st : PState) (hi : Inv S st)
+    (hf : 8 * mu st + 17 ≤ fuel + 1) : PSafe AP S (Parser.exprLoop pf (fuel + 1) prec n) st (EPost S st 0) := by
   unfold Parser.exprLoop
   apply PSafe.bind
   apply next_safe hz hi
@@ -92,11 +119,12 @@ theorem exprLoop_ok {fuel : Nat} (ih : ExprSpecs pf S fuel) (prec : Nat) (n : Ex
     · apply (ih.exprLoop prec _ st2 hi2 (by omega)).mono
       intro e st3 ⟨hi3, hm3⟩
       exact ⟨hi3, by omega⟩
-    · exact trivial
+    · rename_i hnone
+      exact absurd hnone (binOpOf_isSome hb')
 
 
-theorem firstTerm_ok {fuel : Nat} (ih : ExprSpecs pf S fuel) (st : PState) (hi : Inv S st)
-    (hf : 8 * mu st + 9 ≤ fuel + 1) : PSafe S (Parser.parseExprFirstTerm pf (fuel + 1)) st (EPost S st 1) := by
+theorem firstTerm_ok {fuel : Nat} (ih : ExprSpecs pf AP S fuel) (st : PState) (hi : Inv S st)
+    (hf : 8 * mu st + 9 ≤ fuel + 1) : PSafe AP S (Parser.parseExprFirstTerm pf (fuel + 1)) st (EPost S st 1) := by
   unfold Parser.parseExprFirstTerm
   apply PSafe.bind
   apply next_safe hz hi
@@ -112,7 +140,8 @@ theorem firstTerm_ok {fuel : Nat} (ih : ExprSpecs pf S fuel) (st : PState) (hi :
     · exact PSafe.pure ⟨hi2, by omega⟩
     split
     · exact PSafe.pure ⟨hi2, by omega⟩
-    · exact trivial
+    · rename_i h1 h2
+      rcases unary_cases hu with h | h <;> simp [h] at h1 h2
   split
   · rename_i hp
     have hr := real_of_beq hp (by decide)
@@ -126,14 +155,14 @@ theorem firstTerm_ok {fuel : Nat} (ih : ExprSpecs pf S fuel) (st : PState) (hi :
   split
   · rename_i hv
     have hr := real_of_value hv
-    apply (ih.newValueNode tok st1 hs1 hi1 (by omega)).mono
+    apply (ih.newValueNode tok st1 hs1 hv hi1 (by omega)).mono
     intro e st2 ⟨hi2, hm2⟩
     exact ⟨hi2, by omega⟩
   · exact unexpected_safe hi1 hs1
 
-theorem newValueNode_ok {fuel : Nat} (ih : ExprSpecs pf S fuel) (tok : Item) (st : PState) (hst : S tok)
-    (hi : Inv S st) (hf : 8 * mu st + 16 ≤ fuel + 1) :
-    PSafe S (Parser.newValueNode pf (fuel + 1) tok) st (EPost S st 0) := by
+theorem newValueNode_ok {fuel : Nat} (ih : ExprSpecs pf AP S fuel) (tok : Item) (st : PState) (hst : S tok)
+    (hv : isValue tok.typ = true) (hi : Inv S st) (hf : 8 * mu st + 16 ≤ fuel + 1) :
+    PSafe AP S (Parser.newValueNode pf (fuel + 1) tok) st (EPost S st 0) := by
   unfold Parser.newValueNode
   split
   · exact PSafe.pure ⟨hi, by omega⟩
@@ -150,9 +179,10 @@ theorem newValueNode_ok {fuel : Nat} (ih : ExprSpecs pf S fuel) (tok : Item) (st
   · apply (ih.parseListOrMap tok st hst hi (by omega)).mono
     intro e st2 ⟨hi2, hm2⟩
     exact ⟨hi2, by omega⟩
-  · apply PSafe.bind
-    apply tail1_safe
-    intro key
+  · rename_i hty
+    apply PSafe.bind
+    apply tail1_safe (val_ne1 (hwf tok hst) (Or.inl hty))
+    intro _ key _
     apply PSafe.bind
     apply (ih.parseDataRef st hi (by omega)).mono
     intro acc st2 ⟨hi2, hm2⟩
@@ -171,10 +201,13 @@ theorem newValueNode_ok {fuel : Nat} (ih : ExprSpecs pf S fuel) (tok : Item) (st
       apply (ih.newFunctionNode tok st1 hi1 (by omega)).mono
       intro e st2 ⟨hi2, hm2⟩
       exact ⟨hi2, by omega⟩
-  · exact trivial
+  · exfalso
+    rename_i h1 h2 h3 h4 h5 h6 h7 h8
+    revert hv h1 h2 h3 h4 h5 h6 h7 h8
+    cases tok.typ <;> simp [isValue]
 
-theorem parseDataRef_ok {fuel : Nat} (ih : ExprSpecs pf S fuel) (st : PState) (hi : Inv S st)
-    (hf : 8 * mu st + 15 ≤ fuel + 1) : PSafe S (Parser.parseDataRef pf (fuel + 1)) st (EPost S st 0) := by
+theorem parseDataRef_ok {fuel : Nat} (ih : ExprSpecs pf AP S fuel) (st : PState) (hi : Inv S st)
+    (hf : 8 * mu st + 15 ≤ fuel + 1) : PSafe AP S (Parser.parseDataRef pf (fuel + 1)) st (EPost S st 0) := by
   unfold Parser.parseDataRef
   apply PSafe.bind
   apply next_safe hz hi
@@ -183,21 +216,23 @@ theorem parseDataRef_ok {fuel : Nat} (ih : ExprSpecs pf S fuel) (st : PState) (h
   split
   · rename_i ht
     have hr := real_of_eq ht (by decide)
-    apply PSafe.bind; apply tail1_safe; intro _; apply PSafe.bind; apply tail1_safe; intro k
+    apply PSafe.bind; apply tail1_safe (val_ne2a (hwf tok hs1) (Or.inl ht)); intro b1 r1 hv1
+    apply PSafe.bind; apply tail1_safe (val_ne2b (hwf tok hs1) (Or.inl ht) hv1); intro _ k _
     apply PSafe.bind
     apply (ih.parseDataRef st1 hi1 (by omega)).mono
     intro r st2 ⟨hi2, hm2⟩
     exact PSafe.pure ⟨hi2, by omega⟩
   · rename_i ht
     have hr := real_of_eq ht (by decide)
-    apply PSafe.bind; apply tail1_safe; intro k
+    apply PSafe.bind; apply tail1_safe (val_ne1 (hwf tok hs1) (Or.inr (Or.inl ht))); intro _ k _
     apply PSafe.bind
     apply (ih.parseDataRef st1 hi1 (by omega)).mono
     intro r st2 ⟨hi2, hm2⟩
     exact PSafe.pure ⟨hi2, by omega⟩
   · rename_i ht
     have hr := real_of_eq ht (by decide)
-    apply PSafe.bind; apply tail1_safe; intro _; apply PSafe.bind; apply tail1_safe; intro d
+    apply PSafe.bind; apply tail1_safe (val_ne2a (hwf tok hs1) (Or.inr ht)); intro b1 r1 hv1
+    apply PSafe.bind; apply tail1_safe (val_ne2b (hwf tok hs1) (Or.inr ht) hv1); intro _ d _
     split
     · apply PSafe.bind
       apply (ih.parseDataRef st1 hi1 (by omega)).mono
@@ -206,7 +241,7 @@ theorem parseDataRef_ok {fuel : Nat} (ih : ExprSpecs pf S fuel) (st : PState) (h
     · exact errorf_safe hi1
   · rename_i ht
     have hr := real_of_eq ht (by decide)
-    apply PSafe.bind; apply tail1_safe; intro d
+    apply PSafe.bind; apply tail1_safe (val_ne1 (hwf tok hs1) (Or.inr (Or.inr ht))); intro _ d _
     split
     · apply PSafe.bind
       apply (ih.parseDataRef st1 hi1 (by omega)).mono
@@ -243,9 +278,9 @@ theorem parseDataRef_ok {fuel : Nat} (ih : ExprSpecs pf S fuel) (st : PState) (h
     exact PSafe.pure ⟨hi2, by rw [ht1] at hm2; omega⟩
 
 
-theorem parseListOrMap_ok {fuel : Nat} (ih : ExprSpecs pf S fuel) (token : Item) (st : PState) (hst : S token)
+theorem parseListOrMap_ok {fuel : Nat} (ih : ExprSpecs pf AP S fuel) (token : Item) (st : PState) (hst : S token)
     (hi : Inv S st) (hf : 8 * mu st + 15 ≤ fuel + 1) :
-    PSafe S (Parser.parseListOrMap pf (fuel + 1) token) st (EPost S st 0) := by
+    PSafe AP S (Parser.parseListOrMap pf (fuel + 1) token) st (EPost S st 0) := by
   unfold Parser.parseListOrMap
   apply PSafe.bind
   apply next_safe hz hi
@@ -289,9 +324,9 @@ theorem parseListOrMap_ok {fuel : Nat} (ih : ExprSpecs pf S fuel) (token : Item)
     · exact PSafe.pure ⟨hi4, by omega⟩
     · exact unexpected_safe hi4 hs4
 
-theorem parseListItems_ok {fuel : Nat} (ih : ExprSpecs pf S fuel) (st : PState)
+theorem parseListItems_ok {fuel : Nat} (ih : ExprSpecs pf AP S fuel) (st : PState)
     (hi : Inv S st) (hf : 8 * mu st + 12 ≤ fuel + 1) :
-    PSafe S (Parser.parseListItems pf (fuel + 1)) st (EPost S st 0) := by
+    PSafe AP S (Parser.parseListItems pf (fuel + 1)) st (EPost S st 0) := by
   unfold Parser.parseListItems
   apply PSafe.bind
   apply (ih.parseExpr _ st hi (by omega)).mono
@@ -309,9 +344,9 @@ theorem parseListItems_ok {fuel : Nat} (ih : ExprSpecs pf S fuel) (st : PState)
     intro r st3 ⟨hi3, hm3⟩
     exact PSafe.pure ⟨hi3, by omega⟩
 
-theorem parseMapItems_ok {fuel : Nat} (ih : ExprSpecs pf S fuel) (key : Bytes) (items : MapItems) (st : PState)
+theorem parseMapItems_ok {fuel : Nat} (ih : ExprSpecs pf AP S fuel) (key : Bytes) (items : MapItems) (st : PState)
     (hi : Inv S st) (hf : 8 * mu st + 12 ≤ fuel + 1) :
-    PSafe S (Parser.parseMapItems pf (fuel + 1) key items) st (EPost S st 0) := by
+    PSafe AP S (Parser.parseMapItems pf (fuel + 1) key items) st (EPost S st 0) := by
   unfold Parser.parseMapItems
   apply PSafe.bind
   apply (ih.parseExpr _ st hi (by omega)).mono
@@ -337,9 +372,9 @@ theorem parseMapItems_ok {fuel : Nat} (ih : ExprSpecs pf S fuel) (key : Bytes) (
       exact ⟨hi5, by omega⟩
     · exact errorf_safe hi3
 
-theorem parseTernary_ok {fuel : Nat} (ih : ExprSpecs pf S fuel) (cond : Expr) (st : PState)
+theorem parseTernary_ok {fuel : Nat} (ih : ExprSpecs pf AP S fuel) (cond : Expr) (st : PState)
     (hi : Inv S st) (hf : 8 * mu st + 12 ≤ fuel + 1) :
-    PSafe S (Parser.parseTernary pf (fuel + 1) cond) st (EPost S st 0) := by
+    PSafe AP S (Parser.parseTernary pf (fuel + 1) cond) st (EPost S st 0) := by
   unfold Parser.parseTernary
   apply PSafe.bind
   apply (ih.parseExpr _ st hi (by omega)).mono
@@ -363,10 +398,10 @@ theorem parseTernary_ok {fuel : Nat} (ih : ExprSpecs pf S fuel) (cond : Expr) (s
     exact ⟨hi6, by omega⟩
   · exact PSafe.pure ⟨hi4, by omega⟩
 
-theorem newGlobalNode_ok {fuel : Nat} (ih : ExprSpecs pf S fuel) (pos : Nat) (name : Bytes) (nxt : Item)
+theorem newGlobalNode_ok {fuel : Nat} (ih : ExprSpecs pf AP S fuel) (pos : Nat) (name : Bytes) (nxt : Item)
     (st : PState) (hs : S nxt) (hi : Inv S st) (hpc : st.peekCount ≤ 1) (ht : top st = nxt)
     (hf : 8 * (mu st + real nxt) + 8 ≤ fuel + 1) :
-    PSafe S (Parser.newGlobalNode pf (fuel + 1) pos name nxt) st
+    PSafe AP S (Parser.newGlobalNode pf (fuel + 1) pos name nxt) st
       (fun _ st' => Inv S st' ∧ mu st' ≤ mu st + real nxt) := by
   unfold Parser.newGlobalNode
   split
@@ -383,9 +418,9 @@ theorem newGlobalNode_ok {fuel : Nat} (ih : ExprSpecs pf S fuel) (pos : Nat) (na
     intro st2 hi2 hm2 _
     exact PSafe.pure ⟨hi2, by rw [ht] at hm2; omega⟩
 
-theorem newFunctionNode_ok {fuel : Nat} (ih : ExprSpecs pf S fuel) (tok : Item) (st : PState)
+theorem newFunctionNode_ok {fuel : Nat} (ih : ExprSpecs pf AP S fuel) (tok : Item) (st : PState)
     (hi : Inv S st) (hf : 8 * mu st + 13 ≤ fuel + 1) :
-    PSafe S (Parser.newFunctionNode pf (fuel + 1) tok) st (EPost S st 0) := by
+    PSafe AP S (Parser.newFunctionNode pf (fuel + 1) tok) st (EPost S st 0) := by
   unfold Parser.newFunctionNode
   apply PSafe.bind
   apply peek_safe hz hi
@@ -400,9 +435,9 @@ theorem newFunctionNode_ok {fuel : Nat} (ih : ExprSpecs pf S fuel) (tok : Item) 
     intro args st2 ⟨hi2, hm2⟩
     exact PSafe.pure ⟨hi2, by omega⟩
 
-theorem parseFuncArgs_ok {fuel : Nat} (ih : ExprSpecs pf S fuel) (st : PState)
+theorem parseFuncArgs_ok {fuel : Nat} (ih : ExprSpecs pf AP S fuel) (st : PState)
     (hi : Inv S st) (hf : 8 * mu st + 12 ≤ fuel + 1) :
-    PSafe S (Parser.parseFuncArgs pf (fuel + 1)) st (EPost S st 0) := by
+    PSafe AP S (Parser.parseFuncArgs pf (fuel + 1)) st (EPost S st 0) := by
   unfold Parser.parseFuncArgs
   apply PSafe.bind
   apply (ih.parseExpr _ st hi (by omega)).mono
@@ -421,7 +456,7 @@ theorem parseFuncArgs_ok {fuel : Nat} (ih : ExprSpecs pf S fuel) (st : PState)
   · exact unexpected_safe hi2 hs2
 
 /-- every expression function meets its specification at every fuel level -/
-theorem exprSpecs_all : ∀ fuel, ExprSpecs pf S fuel := by
+theorem exprSpecs_all : ∀ fuel, ExprSpecs pf AP S fuel := by
   intro fuel
   induction fuel with
   | zero =>
@@ -429,7 +464,7 @@ theorem exprSpecs_all : ∀ fuel, ExprSpecs pf S fuel := by
       parseExpr := fun _ _ _ h => by omega
       exprLoop := fun _ _ _ _ h => by omega
       firstTerm := fun _ _ h => by omega
-      newValueNode := fun _ _ _ _ h => by omega
+      newValueNode := fun _ _ _ _ _ h => by omega
       parseDataRef := fun _ _ h => by omega
       parseListOrMap := fun _ _ _ _ h => by omega
       parseListItems := fun _ _ h => by omega
@@ -440,18 +475,18 @@ theorem exprSpecs_all : ∀ fuel, ExprSpecs pf S fuel := by
       parseFuncArgs := fun _ _ h => by omega }
   | succ f ih =>
     exact {
-      parseExpr := parseExpr_ok pf S hz ih
-      exprLoop := exprLoop_ok pf S hz ih
-      firstTerm := firstTerm_ok pf S hz ih
-      newValueNode := newValueNode_ok pf S hz ih
-      parseDataRef := parseDataRef_ok pf S hz ih
-      parseListOrMap := parseListOrMap_ok pf S hz ih
-      parseListItems := parseListItems_ok pf S hz ih
-      parseMapItems := parseMapItems_ok pf S hz ih
-      parseTernary := parseTernary_ok pf S hz ih
-      newGlobalNode := newGlobalNode_ok pf S hz ih
-      newFunctionNode := newFunctionNode_ok pf S hz ih
-      parseFuncArgs := parseFuncArgs_ok pf S hz ih }
+      parseExpr := parseExpr_ok pf AP S hz hwf ih
+      exprLoop := exprLoop_ok pf AP S hz hwf ih
+      firstTerm := firstTerm_ok pf AP S hz hwf ih
+      newValueNode := newValueNode_ok pf AP S hz hwf ih
+      parseDataRef := parseDataRef_ok pf AP S hz hwf ih
+      parseListOrMap := parseListOrMap_ok pf AP S hz hwf ih
+      parseListItems := parseListItems_ok pf AP S hz hwf ih
+      parseMapItems := parseMapItems_ok pf AP S hz hwf ih
+      parseTernary := parseTernary_ok pf AP S hz hwf ih
+      newGlobalNode := newGlobalNode_ok pf AP S hz hwf ih
+      newFunctionNode := newFunctionNode_ok pf AP S hz hwf ih
+      parseFuncArgs := parseFuncArgs_ok pf AP S hz hwf ih }
 
 end
 end SoyVerif.Lemmas.ParserSafe
